@@ -11,6 +11,14 @@ long vh_live = 0, vh_nalloc = 0, vh_fail_at = -1, vh_fail_at2 = -1, vh_peak_live
 const char *vh_fail_site = "-";
 vh_free_observer vh_on_free = 0;
 
+/* the wrappers are also linked into the threaded harness: a tiny spin lock keeps the table consistent */
+static volatile int tablock = 0;
+static void lock(void)
+{
+	while (__sync_lock_test_and_set(&tablock, 1))
+		;
+}
+static void unlock(void) { __sync_lock_release(&tablock); }
 static void **tab = 0;
 static size_t tabsz = 0, tabn = 0; /* open addressing, tombstone = (void*)1 */
 
@@ -21,10 +29,17 @@ static void tab_put_raw(void **t, size_t sz, void *p)
 		h = (h + 1) % sz;
 	t[h] = p;
 }
+static void tab_add_locked(void *p);
 static void tab_add(void *p)
 {
 	if (!p)
 		return;
+	lock();
+	tab_add_locked(p);
+	unlock();
+}
+static void tab_add_locked(void *p)
+{
 	if ((tabn + 1) * 2 > tabsz)
 	{
 		size_t nsz = tabsz ? tabsz * 2 : 1 << 16;
@@ -49,7 +64,15 @@ static void tab_add(void *p)
 	if (vh_live > vh_peak_live)
 		vh_peak_live = vh_live;
 }
+static int tab_del_locked(void *p);
 static int tab_del(void *p)
+{
+	lock();
+	int r = tab_del_locked(p);
+	unlock();
+	return r;
+}
+static int tab_del_locked(void *p)
 {
 	if (!tabsz)
 		return 0;
@@ -66,7 +89,7 @@ static int tab_del(void *p)
 }
 static int should_fail(const char *site)
 {
-	long k = vh_nalloc++;
+	long k = __sync_fetch_and_add(&vh_nalloc, 1);
 	if (k == vh_fail_at || k == vh_fail_at2)
 	{
 		vh_fail_site = site;
